@@ -498,6 +498,41 @@ func Minimize(t *testing.T, sc func() Scenario, c *Case, class string, budget in
 			try(d)
 		}
 	}
+	// 1b. fewer actors, then fewer operations, while the tape is still whole
+	dropOps := func() {
+		actors := map[int]bool{}
+		for _, op := range best.Ops {
+			actors[op.Actor] = true
+		}
+		if len(actors) > 1 {
+			var ids []int
+			for a := range actors {
+				ids = append(ids, a)
+			}
+			sort.Ints(ids)
+			for _, a := range ids {
+				d := best.Clone()
+				d.Ops = d.Ops[:0]
+				for _, op := range best.Ops {
+					if op.Actor != a {
+						d.Ops = append(d.Ops, op)
+					}
+				}
+				if len(d.Ops) > 0 && len(d.Ops) < len(best.Ops) {
+					try(d)
+				}
+			}
+		}
+		for i := len(best.Ops) - 1; i >= 0; i-- {
+			if i >= len(best.Ops) {
+				continue
+			}
+			d := best.Clone()
+			d.Ops = append(d.Ops[:i:i], d.Ops[i+1:]...)
+			try(d)
+		}
+	}
+	dropOps()
 	// 2. shorter tape (everything after the cut is decision 0)
 	for n := len(best.Tape) / 2; n >= 1 && len(best.Tape) > 0; n /= 2 {
 		for {
@@ -511,15 +546,8 @@ func Minimize(t *testing.T, sc func() Scenario, c *Case, class string, budget in
 			}
 		}
 	}
-	// 3. fewer operations
-	for i := len(best.Ops) - 1; i >= 0; i-- {
-		if i >= len(best.Ops) {
-			continue
-		}
-		d := best.Clone()
-		d.Ops = append(d.Ops[:i:i], d.Ops[i+1:]...)
-		try(d)
-	}
+	// 3. fewer operations, again
+	dropOps()
 	// 4. zero chunks of the tape
 	for size := len(best.Tape) / 2; size >= 1; size /= 2 {
 		for off := 0; off+size <= len(best.Tape); off += size {
